@@ -31,6 +31,16 @@ func c06tainted(r *rbT, name string) bool {
 	return false
 }
 
+func c06taintedBy(r *rbT, name, class string) bool {
+	for i := range r.occs {
+		o := &r.occs[i]
+		if o.name == name && c05class(r, o) == class {
+			return true
+		}
+	}
+	return false
+}
+
 func c06check(p *AllProject, r *rbT, files []string, srcs [][]byte, oi int, src common.CheckReferenceSrc, tag string, prefix string) {
 	for end := 0; end < 2; end++ {
 		c06check1(p, r, files, srcs, oi, src, tag, prefix, end)
@@ -58,7 +68,9 @@ func c06check1(p *AllProject, r *rbT, files []string, srcs [][]byte, oi int, src
 		got = p.FindReferences(files[o.file], &vs, src)
 	}
 	class := ""
-	if c06tainted(r, o.name) {
+	if c05class(r, o) != "" || c06taintedBy(r, o.name, "C05-initialiser") {
+		// the position-based resolver mis-binds the query position itself, or the name occurs in the initialiser
+		// of a local statement that declares it (the traversal attributes that occurrence to the new local)
 		class = prefix + "-inherits-C05"
 	} else if o.decl < 0 && r.globalMixedDepth(o.name) {
 		class = prefix + "-global-mixed-depth"
